@@ -115,18 +115,24 @@ def r1_generation(ctx):
     ctx.count("generation_scenarios", n)
 
 
-def expected_update(kind, rows, tours, objs, rho, coef, lo, hi):
+def expected_update(kind, rows, tours, objs, rho, coef, lo, hi, bound_first=True):
+    """the trails after the update.  For the max-min variant the property fixes evaporate -> deposit and that every trail ends
+    within the bounds, not WHEN the bounds are enforced: `bound_first` = the evaporated trails are bounded before the deposit
+    (and the result again) - the pinned tree; otherwise only the final trails are bounded (Stuetzle & Hoos' formulation)"""
     d = len(rows)
     m = [[x * (1.0 - rho) for x in r] for r in rows]
     if kind == "mmas":
-        m = [[max(lo, min(hi, x)) for x in r] for r in m]
+        if bound_first:
+            m = [[max(lo, min(hi, x)) for x in r] for r in m]
         sampled = list(range(1, len(tours)))
         best = min(sampled, key=lambda i: objs[i])
         t = tours[best]
         delta = 1.0 / objs[best]
         for a, b in zip(t, t[1:]):
-            m[a][b] = max(lo, min(hi, m[a][b] + delta))
-            m[b][a] = max(lo, min(hi, m[b][a] + delta))
+            m[a][b] = m[a][b] + delta if not bound_first else max(lo, min(hi, m[a][b] + delta))
+            m[b][a] = m[b][a] + delta if not bound_first else max(lo, min(hi, m[b][a] + delta))
+        if not bound_first:
+            m = [[max(lo, min(hi, x)) for x in r] for r in m]
     else:
         for i in range(1, len(tours)):
             delta = coef / objs[i]
@@ -180,14 +186,16 @@ def r2_updates(ctx):
             store2.install(it)
             n += 1
             want = expected_update(kind, rows, tours, objs, rho, 2.0, lo, hi)
+            alt = expected_update(kind, rows, tours, objs, rho, 2.0, lo, hi, bound_first=False) if kind == "mmas" else want
             for p in it.run():
                 ctxs = (tours, objs, rho, base)
                 if p.end != "return" or not (isinstance(p.ret, Agg) and p.ret.variant == "Ok"):
                     bad.append(ctxs + ("does not complete (%s %s)" % (p.end, p.ret),))
                     continue
                 got = [list(p.mstate["heap"]["row%d" % i]) for i in range(dim)]
-                diff = [(i, j, got[i][j], want[i][j]) for i in range(dim) for j in range(dim) if not isinstance(got[i][j], float) or abs(got[i][j] - want[i][j]) > 1e-9 * max(1.0, abs(want[i][j]))]
-                if diff:
+                differs = lambda w_: [(i, j, got[i][j], w_[i][j]) for i in range(dim) for j in range(dim) if not isinstance(got[i][j], float) or abs(got[i][j] - w_[i][j]) > 1e-9 * max(1.0, abs(w_[i][j]))]
+                diff = differs(want)
+                if diff and differs(alt):
                     i, j, g, w = diff[0]
                     bad.append(ctxs + ("leaves trail (%d,%d) at %s; evaporate-then-deposit%s gives %s" % (i, j, g, " with clamping to [%s, %s]" % (lo, hi) if kind == "mmas" else "", w),))
                 ops = p.mstate.get("ops", ())
